@@ -29,6 +29,9 @@ type Config struct {
 	MaxDev int    // bound on summed deviation cost; <0 = unbounded
 	// MaxExec stops after that many executions (0 = none); hitting it clears `exhaustive`.
 	MaxExec int64
+	// ShardLevels is the number of leading choice levels used to partition the
+	// search over shards (default 2). Runs whose prefix is shorter are repeated in every shard.
+	ShardLevels int
 	// Params is free-form information copied into the result (alphabets, bounds).
 	Params map[string]interface{}
 }
@@ -282,14 +285,23 @@ func (e *explorer) owns(choices []int) bool {
 	if e.shardN <= 1 {
 		return true
 	}
-	a, b := 0, 0
-	if len(choices) > 0 {
-		a = choices[0]
+	h := uint32(2166136261)
+	for i := 0; i < e.levels(); i++ {
+		c := 0
+		if i < len(choices) {
+			c = choices[i]
+		}
+		h = (h ^ uint32(c+1)) * 16777619
+		h ^= h >> 13
 	}
-	if len(choices) > 1 {
-		b = choices[1]
+	return int(h%uint32(e.shardN)) == e.shardI
+}
+
+func (e *explorer) levels() int {
+	if e.cfg.ShardLevels > 0 {
+		return e.cfg.ShardLevels
 	}
-	return (a*7919+b*104729+a*b)%e.shardN == e.shardI
+	return 2
 }
 
 func (e *explorer) account(x *X) {
@@ -357,9 +369,9 @@ func (e *explorer) explore(body func(*X)) {
 		}
 		// odometer: deepest position that can be advanced within the deviation bound
 		i := len(x.choices) - 1
-		// a whole subtree below level 2 that is not owned is skipped at once
-		if !own && i > 1 {
-			i = 1
+		// a whole subtree below the sharding levels that is not owned is skipped at once
+		if !own && i > e.levels()-1 {
+			i = e.levels() - 1
 		}
 		for ; i >= 0; i-- {
 			if x.choices[i]+1 >= x.arities[i] {
@@ -485,6 +497,8 @@ func Run(t *testing.T, cfg Config, body func(*X)) {
 	// determinism self-check: the all-default execution twice
 	a := e.run(nil, body)
 	if e.broken == "" {
+		e.seen = map[[16]byte][]seenRec{}
+		e.states = map[[16]byte]struct{}{}
 		b := e.run(nil, body)
 		if e.broken == "" {
 			if d := sameRun(a, b); d != "" {
